@@ -17,21 +17,84 @@ type Target struct {
 	ID   tls.ClientHelloID
 	// Spec, if non-nil, is applied with HelloCustom (a fresh spec per call).
 	Spec func() (*tls.ClientHelloSpec, error)
+	// Pre, if non-nil, runs first (calls that must precede the preset, e.g. RemoveSNIExtension).
+	Pre func(u *tls.UConn) error
 	// Edit, if non-nil, runs after BuildHandshakeState (documented edits).
 	Edit func(u *tls.UConn) error
 	// InspectFirst: call BuildHandshakeStateWithoutSession before the handshake (the
 	// documented way to look at the hello before a session is attached).
 	InspectFirst bool
+	// Style: how the caller drives the connection before Handshake (all documented-legal):
+	// 0 plain Handshake; 1 BuildHandshakeState first; 2 BuildHandshakeStateWithoutSession
+	// first; 3 BuildHandshakeState twice; 4 (custom specs only) ApplyPreset applied twice
+	// with two fresh specs.  Ignored for HelloGolang.
+	Style int
+}
+
+const (
+	StylePlain = iota
+	StyleBuildFirst
+	StyleInspectFirst
+	StyleBuildTwice
+	StyleReapplyPreset
+	NumStyles
+)
+
+// WithStyle returns a copy of the target driven in the given style.
+func (t Target) WithStyle(s int) Target {
+	if t.ID.Client == tls.HelloGolang.Client && t.Spec == nil {
+		return t
+	}
+	t.Style = s % NumStyles
+	if t.Style == StyleReapplyPreset && t.Spec == nil {
+		t.Style = StyleBuildFirst
+	}
+	return t
+}
+
+func StyleName(s int) string {
+	return []string{"plain", "build-first", "inspect-first", "build-twice", "reapply-preset"}[s%NumStyles]
 }
 
 func (t Target) Prepare() func(u *tls.UConn) error {
 	return func(u *tls.UConn) error {
+		if t.Pre != nil {
+			if err := t.Pre(u); err != nil {
+				return err
+			}
+		}
 		if t.Spec != nil {
 			s, err := t.Spec()
 			if err != nil {
 				return err
 			}
 			if err := u.ApplyPreset(s); err != nil {
+				return err
+			}
+			if t.Style == StyleReapplyPreset {
+				s2, err := t.Spec()
+				if err != nil {
+					return err
+				}
+				if err := u.ApplyPreset(s2); err != nil {
+					return err
+				}
+			}
+		}
+		switch t.Style {
+		case StyleBuildFirst:
+			if err := u.BuildHandshakeState(); err != nil {
+				return err
+			}
+		case StyleInspectFirst:
+			if err := u.BuildHandshakeStateWithoutSession(); err != nil {
+				return err
+			}
+		case StyleBuildTwice:
+			if err := u.BuildHandshakeState(); err != nil {
+				return err
+			}
+			if err := u.BuildHandshakeState(); err != nil {
 				return err
 			}
 		}
@@ -375,6 +438,12 @@ func RunCase(t Target, gc GridCase, sni string, extra func(cfg *tls.Config), opt
 	if extra != nil {
 		extra(ccfg)
 	}
+	// Unless the caller fixed how the connection is driven, vary it deterministically with
+	// the case identity: every style is documented-legal, so each property must hold for all.
+	if t.Style == StylePlain && t.Edit == nil && !t.InspectFirst && !NoAutoStyle {
+		h := fnv32(t.Name + "|" + gc.Dim + "|" + gc.Val + "|" + sni)
+		t = t.WithStyle(int(h % NumStyles))
+	}
 	opts.Prepare = t.Prepare()
 	if gc.Plan != nil {
 		plan := gc.Plan
@@ -386,8 +455,13 @@ func RunCase(t Target, gc GridCase, sni string, extra func(cfg *tls.Config), opt
 			}
 		}
 	}
-	return peer.Run(ccfg, t.ClientID(), gc.Server, opts)
+	h := peer.Run(ccfg, t.ClientID(), gc.Server, opts)
+	h.Note = "client driven in style " + StyleName(t.Style)
+	return h
 }
+
+// NoAutoStyle disables the automatic variation of driving styles (debugging aid).
+var NoAutoStyle = false
 
 // serverFirstAlert returns the description of a plaintext alert that is the FIRST record
 // the server wrote (i.e. it refused the offer before answering), or -1.
